@@ -78,6 +78,18 @@ def var_id(n):
     return None
 
 
+def place(n):
+    """a storage place that rules can compare: the id of a variable, or (id, field name) for a field of a struct variable; else None"""
+    n = peel(n)
+    while isinstance(n, dict) and (call_is(n, "Deref::deref") or call_is(n, "DerefMut::deref_mut")) and len(n["args"]) == 1:
+        n = peel(n["args"][0])
+    if isinstance(n, dict) and n.get("k") in ("Var", "Upvar"):
+        return n["id"]
+    if isinstance(n, dict) and n.get("k") == "Field" and peel(n["arg"]).get("k") in ("Var", "Upvar") and not str(n.get("name", "")).isdigit():
+        return (peel(n["arg"])["id"], n["name"])
+    return None
+
+
 def find_arm(match, adt, variant):
     for a in match["arms"]:
         for p in _alts(a["pat"]):
